@@ -135,6 +135,16 @@ def _run(res, work):
             res.violation("machinery-error", "c11 harness produced no report (rc=%d)" % rc, out[-3000:], found_input=False)
     found = False
     if rep:
+        pr = rep.get("macro_fallback_probe") or {}
+        if pr.get("concurrent_differences", 0) > 0:
+            if pr.get("differences_as_model_predicts") and pr.get("sequential_repeats_identical"):
+                res.known("macro_fallback_shared_scratch_files: with --clang-macro-fallback concurrent generations share <dir>/.macro_eval.c and -precompile.h.pch; "
+                          "%d of %d concurrent in-process generations of one header lost macro constants or failed (%s), sequential repeats identical — as C11_scratch_file_interleaving_witness predicts"
+                          % (pr["concurrent_differences"], pr["concurrent_runs"], pr.get("example", "")))
+            else:
+                res.violation("oracle-failure", "--clang-macro-fallback probe differs in a way the scratch-file model does not predict",
+                              json.dumps(pr), {"mode": "fallback-probe"})
+                found = True
         for f in rep["failures"][:5]:
             found = True
             res.violation("oracle-failure",
@@ -187,6 +197,7 @@ def _run(res, work):
         "CURRENT_RUST is compiled only without the `__cli` feature; the harness links bindgen with `__cli`, so that cell is classified and modelled but not executed",
         "iteration-order independence is exercised through the seeded Fx hasher hook for crate::HashMap/HashSet; the two std HashMaps (parsed_macros, includes) are lookup-only and are exercised only through separate processes (per-process RandomState)",
         "`find` over abi_overrides (ir/function.rs) is order dependent when two --override-abi sets with different ABIs match one function name (outside the hypothesis of C11_perm_invariant_partial); with the production FxHasher the order is a fixed function of the ABI values, so output is still reproducible; the harness shows the dependence under the seed hook (seed_hook_sensitivity_probe) and never generates such option sets elsewhere",
+        "generations with --clang-macro-fallback are excluded from the concurrent phases (known finding macro_fallback_shared_scratch_files: scratch files with generation-independent names); they are still run under all seeds and in histories sequentially, and the dedicated probe re-observes the defect",
         "one libclang handle is shared by all threads of the process; thread interleavings are those the OS scheduler produced in this run (completion orders are recorded), not an exhaustive enumeration",
         "three cases out of four run with --no-include-path-detection (skips two clang subprocesses per generation); every comparison is between runs of the identical flag list",
     ]
